@@ -199,7 +199,7 @@ def _ctor_arg(call, name):
   return None
 
 
-def _eval_keys(U, f, expr):
+def _eval_slice(U, f, expr):
   """Keys of the dict an expression of function f evaluates to, by interpreting the statements it depends on (backward
   slice over local names) with every value the slice does not define replaced by a fresh symbol: the KEY SET of a
   metrics / info dict is host data even when it is built by a comprehension, dict(zip(...)), update() ..."""
@@ -250,9 +250,13 @@ def _eval_keys(U, f, expr):
         for x in ast.walk(s_):
           if isinstance(x, ast.Name) and isinstance(x.ctx, ast.Store):
             env['v'][x.id] = sym('opaque_' + x.id)
-    v = I.ev(expr, env, f.mod.name)
+    return I.ev(expr, env, f.mod.name)
   except (avn.OutOfFragment, AnalysisError):
     return None
+
+
+def _eval_keys(U, f, expr):
+  v = _eval_slice(U, f, expr)
   return sorted(v.keys()) if isinstance(v, dict) and all(isinstance(k, str) for k in v) else None
 
 
@@ -361,6 +365,14 @@ def r16_2_3(U, rep, envs):
         zero = False
       if pred.is_const(base) and base[1] in (0, 0.0):
         zero = True
+    if not zero and donev is not None:
+      # not one of the literal idioms: evaluate the (sliced) expression -- the VALUE must be the constant 0
+      from braxlint.avn import Rat, asarr
+      v = _eval_slice(U, reset, donev)
+      try:
+        zero = v is not None and all(Rat.lift(x).is_const() and Rat.lift(x).constval() == 0 for x in asarr(v).ravel())
+      except Exception:  # pylint: disable=broad-except
+        zero = False
     rep.check(zero, 'R16.3', '%s.reset done = 0' % cname, '%s.reset does not start with done = 0: %s' % (
         cname, pred.show(t) if t is not None else 'no done argument'), where=reset.where(ctor),
               construct=pred.show(t) if t is not None else '')
